@@ -510,7 +510,7 @@ static void do_refs(long n)
     begin("refsbig", n);
     sig = sigsetjmp(jb, 1);
     if (sig == 0) {
-        long sameget = 1, lockmid, uniqmid, clrmid, locklast, uniqlast, clrlast, lockend, clrend; void *m;
+        long sameget = 1, lockmid, uniqmid, clrmid, locklast, uniqlast, clrlast, lockend, clrend, lockrounds = 0, deadrounds = 0; void *m;
         cpu_limit(150);
         pclr = 0;
         sp = calloc((size_t)n, sizeof *sp);
@@ -522,7 +522,10 @@ static void do_refs(long n)
         for (i = 1; i < n; i++) { cstl_shared_ptr_share(&sp[0], &sp[i]); if (cstl_shared_ptr_get(&sp[i]) != m) sameget = 0; }
         /* n owners: a lock must find an owner, nobody is unique, nothing cleared */
         cstl_weak_ptr_lock(&w, &t); lockmid = cstl_shared_ptr_get(&t) == m; cstl_shared_ptr_reset(&t);
-        uniqmid = cstl_shared_ptr_unique(&sp[0]); 
+        uniqmid = cstl_shared_ptr_unique(&sp[0]);
+        /* a long life: n more locks of the same allocation, each yielding an owner that is let go again */
+        for (i = 0; i < n; i++) { cstl_weak_ptr_lock(&w, &t); if (cstl_shared_ptr_get(&t) == m) lockrounds++; cstl_shared_ptr_reset(&t); }
+
         cstl_shared_ptr_reset(&sp[n - 1]);                         /* one of n owners goes: still live */
         clrmid = pclr; if (cstl_shared_ptr_get(&sp[0]) != m) sameget = 0;
         for (i = 1; i < n - 1; i++) cstl_shared_ptr_reset(&sp[i]);
@@ -532,11 +535,13 @@ static void do_refs(long n)
         cstl_shared_ptr_reset(&sp[0]);
         clrend = pclr;
         cstl_weak_ptr_lock(&w, &t); lockend = cstl_shared_ptr_get(&t) != NULL; cstl_shared_ptr_reset(&t);
+        /* ... and n locks that must fail, the owners being gone */
+        for (i = 0; i < n; i++) { cstl_weak_ptr_lock(&w, &t); if (cstl_shared_ptr_get(&t) == NULL && cstl_shared_ptr_unique(&t)) deadrounds++; cstl_shared_ptr_reset(&t); }
         cstl_weak_ptr_reset(&w);
         free(sp);
         cpu_limit(0);
-        fprintf(out, "\"sameget\":%s,\"lockmid\":%ld,\"uniqmid\":%ld,\"clrmid\":%ld,\"locklast\":%ld,\"uniqlast\":%ld,\"clrlast\":%ld,\"clrend\":%ld,\"lockend\":%ld",
-                sameget ? "true" : "false", lockmid, uniqmid, clrmid, locklast, uniqlast, clrlast, clrend, lockend);
+        fprintf(out, "\"sameget\":%s,\"lockmid\":%ld,\"uniqmid\":%ld,\"clrmid\":%ld,\"locklast\":%ld,\"uniqlast\":%ld,\"clrlast\":%ld,\"clrend\":%ld,\"lockend\":%ld,\"lockrounds\":%ld,\"deadrounds\":%ld,\"clrfinal\":%ld",
+                sameget ? "true" : "false", lockmid, uniqmid, clrmid, locklast, uniqlast, clrlast, clrend, lockend, lockrounds, deadrounds, pclr);
         end_ok();
     } else { cpu_limit(0); end_sig(sig); }
 }
